@@ -99,7 +99,9 @@ pub fn extract_fs(ctx: &mut Ctx) {
                 (5, 0) => XE { name: "l".into(), kind: 2, content: b"../outside/secret".to_vec(), perm: Some(0o777), time: None },  // link entry carrying a permission
                 _ => {
                     let kind = [0u8, 0, 0, 1, 2, 3][rng.gen_range(0..6)];
-                    let name = match rng.gen_range(0..8) { 0 => format!("../{}", fname(&mut rng)), 1 => format!("/{}", fname(&mut rng)), _ => fname(&mut rng) };
+                    // names that sanitise to the empty name (the destination is the output directory itself) for files and
+                    // directories; for link kinds the trailing-slash behaviour of symlink(2)/link(2) on `out/` is not modelled
+                    let name = match rng.gen_range(0..9) { 0 => format!("../{}", fname(&mut rng)), 1 => format!("/{}", fname(&mut rng)), 2 if kind <= 1 => ["/", "", "..", "./."][rng.gen_range(0..4)].to_string(), _ => fname(&mut rng) };
                     let content = match kind {
                         0 => format!("content-{i}").into_bytes(),
                         1 => vec![],
